@@ -12,7 +12,7 @@ CHECKS = {
                     quick=dict(shards=4, checks=250, timeout=240),
                     thorough=dict(shards=16, checks=3000, timeout=1500))],
         rule="cases = generated table histories (configuration x hands with drawn betting lines and stacked/random decks x buy-in/re-buy/add-on/leave operations between and during hands) driven through the real TableEngine; oracle = chip ledger + per-hand result (settled snapshot cross-checked with a pure replay of the successful backend calls); a case is non-trivial if it contains a side pot, a split pot, a bust, a top-up during a hand or a departure with chips; distinct = distinct abstract traces (config class, op kinds, action kinds per hand, outcome)",
-        mandatory=dict(quick=["sidepot", "splitpot", "bust", "leave_with_chips", "ante", "short_deck"]),
+        mandatory=dict(quick=['racing_rebuy_landed_before_open', 'racing_rebuy_landed_after_open', "sidepot", "splitpot", "bust", "leave_with_chips", "ante", "short_deck"]),
         assumptions=ASSUME_COMMON + ["participants of a running hand do not leave mid-hand (caller precondition from PlayersLeave's documented uses)", "bet sizes are legal (pokerface does not validate them)"],
     ),
     "C03": dict(
